@@ -60,6 +60,7 @@ type ErrPlan struct {
 	Meta    http.Header
 	CtxErr  bool // wait for the handler's context to finish, return ctx.Err()
 	CtxKind int  // 1 context.Canceled, 2 context.DeadlineExceeded, 3/4 the same wrapped with %w
+	WrapCtx int  // coded error whose cause wraps a context error of a sub-operation: 1 context.Canceled, 2 context.DeadlineExceeded
 }
 
 type DetailPlan struct {
